@@ -283,22 +283,24 @@ impl<T: Debug + PartialEq, F: RealNumber, D: Distance<T, F>> CoverTree<T, F, D> 
             r is Ok ==> self.radius_answer(p, radius, r->Ok_0@), //# radius-answer-exact
 //@enter
         proof { F::ops_total(); }
-//@before while !current_cover_set.is_empty()
         let ghost mut h: int = height(self.root) as int;
         let ghost mut gk: Seq<Node<F>> = Seq::empty();   // children of the entry expanded last (all consumed between expansions)
         proof {
-            let e = Seq::<(F, &Node<F>)>::empty();
-            let ek = Seq::<Node<F>>::empty();
-            let cs = current_cover_set@;
-            assert(cs.len() == 1 && cs[0] == (d, &self.root));
-            assert forall|i: int| 0 <= i < self.data@.len() implies ({
-                let t = #[trigger] Self::total(e, e, ek, 0, cs, 0, i);
-                t <= 1 && (self.within(p, radius, i) ==> t == 1)
-            }) by {
-                assert(nl_cov(cs, 1, 1, i) == 0);
-                assert(nl_cov(cs, 0, 1, i) == nl(self.root, i));
+            // the descent starts from the cover set [(d0, root)], whatever the distance d0: every point is in play exactly once
+            assert forall|d0: F| self.counts_ok(p, radius, Seq::empty(), Seq::empty(), Seq::empty(), 0,
+                    #[trigger] Seq::<(F, &Node<F>)>::empty().push((d0, &self.root)), 0) by {
+                let e = Seq::<(F, &Node<F>)>::empty();
+                let ek = Seq::<Node<F>>::empty();
+                let cs = e.push((d0, &self.root));
+                assert(cs.len() == 1 && cs[0] == (d0, &self.root));
+                assert forall|i: int| 0 <= i < self.data@.len() implies ({
+                    let t = #[trigger] Self::total(e, e, ek, 0, cs, 0, i);
+                    t <= 1 && (self.within(p, radius, i) ==> t == 1)
+                }) by {
+                    assert(nl_cov(cs, 1, 1, i) == 0);
+                    assert(nl_cov(cs, 0, 1, i) == nl(self.root, i));
+                }
             }
-            assert(zero_set@ =~= e);
         }
 //@loop 1
             invariant
@@ -309,14 +311,15 @@ impl<T: Debug + PartialEq, F: RealNumber, D: Distance<T, F>> CoverTree<T, F, D> 
                 self.zero_ok(p, radius, zero_set@),
                 self.counts_ok(p, radius, zero_set@, Seq::empty(), Seq::empty(), 0, current_cover_set@, 0), //# inv-each-point-in-play-at-most-once-and-once-if-within
                 neighbors@.len() == 0,
+            ensures
+                current_cover_set@ =~= Seq::empty(),
             decreases h
-//@before for par in current_cover_set
+//@loopbody 1
             let ghost cs = current_cover_set@;
             proof {
                 assert(cs.len() > 0);
                 let e0 = cs[0];
                 assert(height(*e0.1) >= 1);
-                assert(next_cover_set@ =~= Seq::empty());
                 gk = Seq::empty();
             }
 //@loop 2
@@ -331,7 +334,7 @@ impl<T: Debug + PartialEq, F: RealNumber, D: Distance<T, F>> CoverTree<T, F, D> 
                     self.zero_ok(p, radius, zero_set@),
                     self.counts_ok(p, radius, zero_set@, next_cover_set@, gk, gk.len() as int, cs, VERUS_ghost_iter.index@), //# inv-level-step-no-point-lost-or-doubled
                     neighbors@.len() == 0,
-//@before let parent = par.1;
+//@loopbody 2
                 let ghost j = VERUS_ghost_iter.index@;
                 proof {
                     assert(0 <= j < cs.len() && par == cs[j]);
@@ -351,17 +354,19 @@ impl<T: Debug + PartialEq, F: RealNumber, D: Distance<T, F>> CoverTree<T, F, D> 
                         self.zero_ok(p, radius, zero_set@), //# inv-collected-leaves-are-within-radius
                         self.counts_ok(p, radius, zero_set@, next_cover_set@, gk, c as int, cs, j + 1), //# inv-child-step-no-point-lost-or-doubled
                         neighbors@.len() == 0,
-//@after let child = &parent.children[c];
+//@loopbody 3
                     proof {
                         F::ops_total();
                         assert(self.node_wf(*parent));
                         assert(self.node_wf(gk[c as int]));
-                        assert(*child == gk[c as int]);
                     }
                     let ghost zero0 = zero_set@;
                     let ghost next0 = next_cover_set@;
-//@before if d <= radius ##1
+//@loopend 3
+                    // step: whatever was done with child c (queued, collected, dropped) keeps the bookkeeping; stated on the state
+                    // (zero0, next0) before the step
                     proof {
+                        assert(*child == gk[c as int]);
                         assert(d == self.dist_to(p, child.idx as int));
                         lemma_child_height(*parent, c as int);
                         let x = (d, child);
@@ -384,31 +389,29 @@ impl<T: Debug + PartialEq, F: RealNumber, D: Distance<T, F>> CoverTree<T, F, D> 
                             self.lemma_child_dropped(p, radius, zero0, next0, gk, c as int, cs, j + 1);
                         }
                     }
-//@before current_cover_set = next_cover_set;
+//@loopend 1
+            // (current_cover_set is now the next level's cover set)
             proof {
-                self.lemma_kids_done(p, radius, zero_set@, next_cover_set@, gk, cs, cs.len() as int);
-                self.lemma_next_level(p, radius, zero_set@, next_cover_set@, cs);
+                self.lemma_kids_done(p, radius, zero_set@, current_cover_set@, gk, cs, cs.len() as int);
+                self.lemma_next_level(p, radius, zero_set@, current_cover_set@, cs);
                 h = h - 1;
             }
-//@before for ds in zero_set
-        let ghost zs = zero_set@;
-        proof { assert(current_cover_set@ =~= Seq::empty()); }
 //@loop 4
             invariant
                 self.tree_wf(),
-                VERUS_ghost_iter.seq() == zs,
-                self.zero_ok(p, radius, zs),
-                self.counts_ok(p, radius, zs, Seq::empty(), Seq::empty(), 0, Seq::empty(), 0),
+                VERUS_ghost_iter.seq() == zero_set@,
+                self.zero_ok(p, radius, zero_set@),
+                self.counts_ok(p, radius, zero_set@, Seq::empty(), Seq::empty(), 0, Seq::empty(), 0),
                 neighbors@.len() == VERUS_ghost_iter.index@,
-                forall|a: int| 0 <= a < neighbors@.len() ==> (#[trigger] neighbors@[a]).0 == zs[a].1.idx && neighbors@[a].1 == zs[a].0
-                    && *neighbors@[a].2 == self.data@[zs[a].1.idx as int], //# inv-result-entry-is-index-distance-point
-//@before let v = self.get_data_value(ds.1.idx);
+                forall|a: int| 0 <= a < neighbors@.len() ==> (#[trigger] neighbors@[a]).0 == zero_set@[a].1.idx && neighbors@[a].1 == zero_set@[a].0
+                    && *neighbors@[a].2 == self.data@[zero_set@[a].1.idx as int], //# inv-result-entry-is-index-distance-point
+//@loopbody 4
             proof {
                 let a = VERUS_ghost_iter.index@;
-                assert(0 <= a < zs.len() && ds == zs[a]);
+                assert(0 <= a < zero_set@.len() && ds == zero_set@[a]);
             }
-//@before Ok(neighbors)
-        proof { self.lemma_answer(p, radius, zs, neighbors@); }
+//@tail
+        proof { self.lemma_answer(p, radius, zero_set@, neighbors@); }
 //@end
 }
 
